@@ -92,6 +92,62 @@ fn run_tool(cw: &mut CaseWriter, bindir: &str, label: &str, dir: &str, extra: bo
                  "bytes_before_json": json_offset, "stdout_prefix": prefix}}));
 }
 
+/// `fix_ecdata_from_extra` on a project directory, with the inputs it reads laid out for the Lean model (`Extra.lean`):
+/// the walls and windows of the converted model with the computed U / F_sh;obst the indicators report, and the parsed result files
+fn fix_extra_case(cw: &mut CaseWriter, label: &str, dir: &str, use_kyg: bool, use_tbl: bool) {
+    use bemodel::utils::fround2;
+    let d = dir.to_string();
+    let r = guarded(move || {
+        let f = hulc::ctehexml::find_ctehexml(&d)?.ok_or_else(|| anyhow::format_err!("no project"))?;
+        let data = hulc::ctehexml::parse_with_catalog_from_path(&f)?;
+        let mut model = Model::try_from(&data)?;
+        let ind = model.energy_indicators();
+        let kygpath = if use_kyg { hulc::kyg::find_kyg(&d)? } else { None };
+        let tblpath = if use_tbl { hulc::tbl::find_tbl(&d)? } else { None };
+        let walls: Vec<Value> = model.walls.iter().map(|w| json!({"name": w.name, "id": w.id.to_string(),
+            "interior": w.bounds == bemodel::BoundaryType::INTERIOR,
+            "computed_u": fround2(ind.props.walls.get(&w.id).and_then(|p| p.u_value).unwrap_or(0.0))})).collect();
+        let windows: Vec<Value> = model.windows.iter().map(|w| json!({"name": w.name, "id": w.id.to_string(),
+            "computed_fsh": ind.props.windows.get(&w.id).and_then(|p| p.f_shobst)})).collect();
+        let kyg = match &kygpath {
+            Some(p) => {
+                let k = hulc::kyg::parse_from_path(p)?;
+                json!({"walls": k.walls.iter().map(|(n, w)| json!([n, fround2(w.u)])).collect::<Vec<_>>(),
+                       "windows": k.windows.iter().map(|(n, w)| json!([n, fround2(w.fshobst)])).collect::<Vec<_>>()})
+            }
+            None => Value::Null,
+        };
+        let tbl = match &tblpath {
+            Some(p) => {
+                let t = hulc::tbl::parse(p)?;
+                Value::Array(t.elements.iter().map(|(n, e)| json!([n, fround2(e.u)])).collect())
+            }
+            None => Value::Null,
+        };
+        let before_w = model.overrides.walls.len();
+        let res = hulc2model::fix_ecdata_from_extra(&mut model, &kygpath, &tblpath);
+        let imp = match res {
+            Ok(()) => json!({"outcome": "ok", "overrides_before": before_w,
+                "wall_overrides": model.overrides.walls.iter().filter_map(|(id, o)| o.u_value.map(|u| json!([id.to_string(), u]))).collect::<Vec<_>>(),
+                "win_overrides": model.overrides.windows.iter().filter_map(|(id, o)| o.f_shobst.map(|u| json!([id.to_string(), u]))).collect::<Vec<_>>(),
+                "extra": model.extra.as_ref().map(|e| e.iter().map(|x| x.name.clone()).collect::<Vec<_>>())}),
+            Err(e) => json!({"outcome": "err", "msg": format!("{e:#}").chars().take(120).collect::<String>()}),
+        };
+        Ok(serde_json::to_string(&json!({"walls": walls, "windows": windows, "kyg": kyg, "tbl": tbl, "impl": imp}))?)
+    });
+    match r {
+        Outcome::Ok(t) => {
+            let mut v: Value = serde_json::from_str(&t).unwrap_or(Value::Null);
+            v["op"] = json!("fixextra");
+            v["kind"] = json!("fixextra");
+            v["label"] = json!(label);
+            cw.write(v);
+        }
+        Outcome::Err(e) => cw.write(json!({"op": "noop", "kind": "fixextra", "label": label, "impl": {"outcome": "not-applicable", "msg": e}})),
+        Outcome::Panic(p) => cw.write(json!({"op": "noop", "kind": "fixextra", "label": label, "impl": {"outcome": "panic", "msg": p}})),
+    }
+}
+
 fn run_thor(cw: &mut CaseWriter, bindir: &str, label: &str, file: &Path, tmp: &Path) {
     let mut outs = vec![];
     let mut runs: Vec<(usize, usize)> = vec![];
@@ -165,6 +221,9 @@ pub fn run(args: &Args) -> i32 {
         let ds = d.to_string_lossy().to_string();
         for extra in [false, true] {
             run_tool(&mut cw, &bindir, &format!("project:{name}:{}", if extra { "extra" } else { "default" }), &ds, extra);
+        }
+        for (tag, k, t) in [("kyg+tbl", true, true), ("kyg", true, false), ("tbl", false, true), ("none", false, false)] {
+            fix_extra_case(&mut cw, &format!("fixextra:{name}:{tag}"), &ds, k, t);
         }
         if let Ok(Some(f)) = hulc::ctehexml::find_ctehexml(&ds) {
             run_thor(&mut cw, &bindir, &format!("thor:{name}"), &f, &tmp);
@@ -311,6 +370,7 @@ pub fn run(args: &Args) -> i32 {
             std::fs::write(&tbl, unlatin(&ttext)).ok();
         }
         if agreed {
+            fix_extra_case(&mut cw, &format!("fixextra:{name}:agreeing-results"), &dst.to_string_lossy(), true, true);
             run_tool(&mut cw, &bindir, &format!("project:{name}:agreeing-results:extra"), &dst.to_string_lossy(), true);
         } else {
             cw.write(json!({"op": "noop", "label": format!("project:{name}:agreeing-results:not-built"), "kind": "note", "impl": {"library_converts": false}}));
